@@ -362,6 +362,9 @@ def measure_rule(ctx):
 
 
 def run(ctx):
+    from ..shared import foreign_state_rule as _fsr
+
+    ctx.attempt(_fsr, ctx, 'R8.24', lambda f, _s=('EasyFEA.FEM', 'EasyFEA.Simulations', 'EasyFEA.Models'): f.module.name.startswith(_s))
     from . import e2e_rules as _e2e
 
     ctx.attempt(_e2e.geometry_rule, ctx, 'R8.E1')
